@@ -42,6 +42,8 @@ class Ctx:
             if not m[cfg]["ok"] and cfg != "full":
                 pass
             self.fbs[cfg] = facts.FactBase(cfg, m[cfg]["dir"])
+            for new_, old_ in sorted(self.fbs[cfg].renamed.items()):
+                self.notes.append("[%s] function %s is read as the renamed / moved %s (same signature; the old name no longer exists, the new one is not in the frozen inventory)" % (cfg, new_, old_))
             self.analysed["configs"].add(cfg)
         return self.fbs[cfg]
 
